@@ -38,10 +38,10 @@ def step (st : DSt) (op : List String) : DSt × List String :=
     let c : Contract := { addr := a, seller := w (kvGet rest "seller"), buyer := w (kvGet rest "buyer"),
                           validator := w (kvGet rest "validator"), running := kvGet rest "state" = "1" }
     ({ st with s := setChain st.s c }, ["watched -"])
-  | ["startmgr"] =>
+  | "startmgr" :: _ =>
     let s' := PRV.Model.Manager.step st.s .start
     ({ s := s', started := true }, diffOuts [] s'.watched ++ [watchedLine s'])
-  | ["restart"] =>
+  | "restart" :: _ =>
     let s' := PRV.Model.Manager.step st.s .restart
     ({ s := s', started := true },
      (st.s.watched.map (fun a => s!"ctl exit {a}") ++ s'.watched.map (fun a => s!"ctl start {a}")).mergeSort (· ≤ ·) ++ [watchedLine s'])
